@@ -262,7 +262,7 @@ func vfRunPipe(cfg vfPipeCfg, seed int64) []map[string]interface{} {
 	if cfg.GenFails {
 		n = 1
 	}
-	p.sink.log(map[string]interface{}{"ev": "Reset", "n": n, "w": cfg.W, "limited": cfg.Limited})
+	p.sink.log(map[string]interface{}{"ev": "Reset", "n": n, "w": cfg.W, "limited": cfg.Limited, "exact": true})
 	ctx, cancel := context.WithCancel(context.Background())
 	p.cancel = cancel
 	defer cancel()
@@ -332,7 +332,16 @@ func vfRunPipe(cfg vfPipeCfg, seed int64) []map[string]interface{} {
 		case <-p.stop:
 		case <-doneSeen:
 			deadline := time.Now().Add(15 * time.Second)
-			for atomic.LoadInt64(&p.seenErrs) < atomic.LoadInt64(&p.injected) && time.Now().Before(deadline) {
+			stopped := func() bool {
+				select {
+				case <-p.stop:
+					return true
+				default:
+					return false
+				}
+			}
+			// (if the cancel point fired meanwhile, errors may legitimately stay undelivered: do not wait for them)
+			for atomic.LoadInt64(&p.seenErrs) < atomic.LoadInt64(&p.injected) && time.Now().Before(deadline) && !stopped() {
 				time.Sleep(200 * time.Microsecond)
 			}
 			p.sink.mu.Lock()
